@@ -7,7 +7,8 @@ from . import refcodec as R
 from . import values as V
 
 HASHABLE_LEAVES = list(R.INTS) + ["bool", "string", "UUID", "Offset", "double", "float"]
-UNKNOWN_NAMES = ["foo", "byte", "my_type"]
+# names the grammar allows and this API has no codec for; blanks are ordinary name characters
+UNKNOWN_NAMES = ["foo", "byte", "my_type", "acme blob v2", " string", "int64_t "]
 
 
 def gen_type(r, depth=3, hashable=False, allow_unknown=False, allow_variant=True, allow_unordered=True):
